@@ -7,9 +7,10 @@ ID = "C17"
 COQ_REQUIRE = ["M_PseudoTree"]
 COQ_CASE_TYPE = "M_PseudoTree.case"
 COQ_CHECK = "M_PseudoTree.check_case"
-OBLIGATIONS = ["pt_check_sound", "pt_valid_ancestral", "pt_valid_reaches_root",
-               "pt_constraints_exact", "pt_nodes_partial", "pt_links_partial"]
-N_QUICK, N_THOROUGH = 320, 4000
+OBLIGATIONS = ["pt_check_sound", "pt_valid_ancestral", "pt_valid_order", "pt_valid_rooted",
+               "pt_valid_wf", "pt_valid_scope_chain", "pt_constraints_exact",
+               "pt_nodes_partial", "pt_links_partial"]
+N_QUICK, N_THOROUGH = 500, 5000
 PARALLEL = 8
 SHARD = 80
 RULE = ("seeded random constraint graphs given to the real build_computation_graph through a DCOP "
@@ -43,7 +44,7 @@ META = dict(
 )
 
 BIG_COQ_CHECK = 400     # largest tree passed through pt_check inside Coq
-BIG_COQ_BUILD = 120     # largest graph on which the Gallina builder is run
+BIG_COQ_BUILD = 220     # largest graph on which the Gallina builder is run (quick tier; thorough: 400)
 
 
 # ---------------------------------------------------------------- generators
@@ -57,11 +58,11 @@ def _rand_tree_edges(rng, ids):
 def _small(rng):
     kind = rng.choice(["sparse", "sparse", "dense", "tree", "clique", "star", "ring", "grid", "union",
                        "nary", "nary", "mixed", "empty", "unary", "chain"])
-    n = rng.randint(1, 22) if rng.random() < 0.8 else rng.randint(1, 6)
+    n = rng.randint(2, 22) if rng.random() < 0.9 else rng.randint(1, 5)
     ids = list(range(n))
     sc = []
     if kind == "sparse":
-        m = rng.randint(0, max(0, n + 2))
+        m = rng.randint(0, max(0, 2 * n))
         for _ in range(m):
             if n >= 2:
                 sc.append(rng.sample(ids, 2))
@@ -151,23 +152,26 @@ def _big(rng, tier, i):
     order = list(range(n))
     if rng.random() < 0.5:
         rng.shuffle(sc)
-    return dict(kind="big_" + kind, n=n, order=order, scopes=sc, api="lists", ctype="fun")
+    return dict(kind="big_" + kind, n=n, order=order, scopes=sc, api="lists", ctype="fun",
+                model_build_max=BIG_COQ_CHECK if tier == "thorough" else BIG_COQ_BUILD)
 
 
 def gen(rng, n, tier):
     nbig = 10 if tier == "quick" else 40
-    cases = [_big(rng, tier, i) for i in range(nbig)]
+    big = [_big(rng, tier, i) for i in range(nbig)]
     # fixed small corner cases
-    cases += [
+    cases = [
         dict(kind="fixed", n=1, order=[0], scopes=[], api="dcop_pre", ctype="fun"),
         dict(kind="fixed", n=1, order=[0], scopes=[[0]], api="dcop", ctype="fun"),
         dict(kind="fixed", n=2, order=[0, 1], scopes=[], api="lists", ctype="fun"),
         dict(kind="fixed", n=3, order=[0, 1, 2], scopes=[[0, 1], [1, 2], [0, 2]], api="dcop", ctype="matrix"),
         dict(kind="fixed", n=4, order=[3, 1, 0, 2], scopes=[[0, 1, 2, 3]], api="lists", ctype="fun"),
     ]
-    while len(cases) < n:
+    while len(cases) + len(big) < n:
         cases.append(_small(rng))
-    return cases
+    # long structures last: the first failing case (the one that is shrunk and written to the
+    # replay file) is then a small one whenever a small one fails
+    return cases + big
 
 
 # ---------------------------------------------------------------- implementation driver
@@ -358,7 +362,7 @@ def coq_case(c, o):
     return "(mkCase (mkGraph %s %s) %s %s %s)" % (
         q.zlist(o["vars"]), q.lst([q.zlist(s) for s in o["scopes"]]),
         q.zlist(o["roots"]), q.lst([_node_term(x) for x in o["nodes"]]),
-        q.b(c["n"] <= BIG_COQ_BUILD))
+        q.b(c["n"] <= c.get("model_build_max", BIG_COQ_BUILD)))
 
 
 def nontrivial(c, o):
